@@ -19,11 +19,16 @@ no-libc probe harness-nolibc/c13probe (default environment Inherit = the probe's
 no-alloc front end `process::spawn` with an explicit Environment (harness-nolibc/c13free); the child reports the envp it was
 started with; judged by the property (nothing given: default environment, else exactly the given strings in order) and
 compared with `envRounds` (Props: builder_env_exact, respawn_env_exact, envs_nil_identity, envs_eq_foldl_env).
+Identity dimension (checks/c13_ids.py): the caller's identity STATE (real/effective/saved uid and gid, supplementary groups; set up
+in a forked helper with setresuid/setresgid) x the uid / gid / pgroup requested, judged by what the child image reports about
+itself (/proc/self/status Uid:, Gid:, Groups:, NSpgid:) against the kernel's rules for setuid/setgid/setpgid/exec in do_spawn's
+order, compared with `idSteps` + `spawn` (Props: spawn_ids_exact, spawn_ids_effective, spawn_ids_err, spawn_ids_result).
 """
 import json
 
 from . import common as C
 from . import c13_env
+from . import c13_ids
 
 CONFIGS = ["-", "a1", "a3,e2", "a5,e3,twice", "e4", "cwd", "uid,gid", "pg", "cl2", "cwd,uid,gid,pg,cl2", "io=nnn", "io=ppp", "io=npi",
            "io=iri", "io=pnr", "io=iio", "io=iei", "io=nio", "io=neo", "a2,e1,cwd,pg,cl1,io=npr", "nobin", "nobin,io=ppp,cwd", "clf13", "cl1,clf5,cwd", "clu", "io=pip,clu"]
@@ -540,7 +545,10 @@ def run(ctx):
                 "envs(1 item), envs(3 items), arg, spawn} + %d targeted + seeded random sequences (3..11 calls, envs of 0..5 items, repeated keys and "
                 "strings, keys of the caller's own environment, arg/args/cwd in between, 1..n spawns) on ONE real Command, in the build without "
                 "`start` (default None) and in the no-libc build with `start` (default Inherit) under caller environments of 0, 1 and 5 entries, "
-                "+ the no-alloc `process::spawn` with Environment::Inherit / None; distinct = (build, caller environment, call-shape of the sequence)"
+                "+ the no-alloc `process::spawn` with Environment::Inherit / None; distinct = (build, caller environment, call-shape of the sequence) "
+                "+ IDENTITY: caller identity states (r,e,s uid over 10 states, r,e,s gid over 5, supplementary groups) x uid, gid in {none, 0, 4242, "
+                "4343} x pgroup in {none, 0, existing group, no such group}: per-dimension sweeps + pairs + a seeded sample of the full product "
+                "(thorough: the full product), each in a forked helper, judged on the image's own /proc/self/status"
                 % (len(configs), len(respawn), max(len(Cfg(c).rounds) for c in respawn), len(c13_env.TARGETED)))
     ctx.assumptions += [
         "fault injection (sc-shim) runs in the build WITHOUT the `start` feature (std-hosted harness); the `start` build (no libc, "
@@ -552,7 +560,15 @@ def run(ctx):
         "Command::exec (same envp selection, own copy of the match) is not exercised; `env` REPLACES the inherited environment by the "
         "given variables and never looks at keys: that reading is the specification used (see env_drops_inherited / env_duplicates_kept)",
         "the exec target is the harness binary in --dump mode; its view (argv, environ, cwd, /proc/self/fd, pgid) is the observation of "
-        "what the child is executing; uid/gid are set to the caller's own ids (no privilege to change them); the harness gives itself three "
+        "what the child is executing; in the fault-injection streams uid/gid are set to the caller's own ids; WHICH identity the image runs as "
+        "is the business of the `identity` stream: a forked helper puts itself into an identity state (real/effective/saved uid and gid over "
+        "{0, 4242, 4343}, supplementary groups), spawns `cat /proc/self/status` with .uid/.gid/.pgroup and the image's own Uid:/Gid:/Groups:/"
+        "NSpgid: lines are judged by the kernel's rules (capability = effective uid 0; setuid/setgid with it: all three ids, without it: the "
+        "effective id only and only to the real or saved one, else EPERM; setpgid to 0 / an existing group of the session / else EPERM; exec: "
+        "saved := effective) applied in do_spawn's order uid, gid, pgroup — the rules are an assumption, the run against the kernel is their "
+        "test; needs CAP_SETUID + CAP_SETGID, without them the stream degrades to the caller's own identity and records `not runnable here` "
+        "(evidence field identity_stream); the order's consequences for a privileged caller (uid+gid drop refused with EPERM, real gid not "
+        "moved) are counted in the evidence and proved as witnesses, not judged; the harness gives itself three "
         "distinct files as stdin/stdout/stderr so that an inherited stream is told from /dev/null and from a pipe; a MakePipe stream must be "
         "the very pipe whose other end the caller is handed in Child (same pipe inode); every pre-exec closure leaves a mark when called",
         "the 8-byte message on the CLOEXEC pipe is delivered atomically and written only by the child (a forced read result of 8 garbage "
@@ -639,6 +655,8 @@ def run(ctx):
         ctx.violation({"kind": "malformed-accepted"}, {"driver": bad, "harness": badh}, no_input=True)
     # ---- the environment builder as a state machine, both feature settings ----
     c13_env.run_env_builder(ctx, drv, exe)
+    # ---- the caller's identity state x the ids requested, judged by what the image runs as ----
+    c13_ids.run_ids(ctx, drv, exe)
     for c, o in (list(zip(base_cases, base))[:3] + [x for x in zip(cases, outs) if " c" in x[0]][:2] + [x for x in zip(cases, outs) if "fork:e" in x[1]][:1]
                  + list(zip(rbase_cases, rbase))[3:5] + [x for x in zip(rcases, routs) if "fr1" in x[0] and " c" in x[0]][:2]):
         ctx.sample({"case": c, "implementation": o[:700]})
@@ -655,6 +673,8 @@ def run(ctx):
 def replay(ctx, rp):
     if rp.get("replay", {}).get("stream") == "env-builder" and rp["replay"].get("case"):
         return c13_env.replay_env(ctx, rp)
+    if rp.get("replay", {}).get("stream") == "identity" and rp["replay"].get("case"):
+        return c13_ids.replay_ids(ctx, rp)
     case = rp.get("replay", {}).get("case")
     if not case:
         print("replay file names a broken obligation, not an input:", json.dumps(rp.get("replay"))[:600])
